@@ -48,6 +48,13 @@ def extra_specs():
         ],
     ))
     S.append(dict(
+        name="repeated_args_emitted_last",
+        params=[("k1", None)],
+        vars=[("x", None), ("y", None)],
+        derived=[("dxy", R.mul, ["x", "y"]), ("dsq", R.mul, ["x", "x"])],
+        reactions=[("v1", R.mass_action_2s, ["dsq", "dxy", "k1"], {"x": -1, "y": 1})],
+    ))
+    S.append(dict(
         name="same_name_same_role",
         params=[("k1", None), ("k2", None)],
         vars=[("x", None), ("y", None)],
@@ -156,4 +163,6 @@ def scenarios(tier, seed):
         orders = M.all_orders(s, kinds=("derived", "reactions")) if tier != "quick" else [s]
         for o in orders:
             scs.append(Gen(o))
+    if tier != "quick":
+        scs += [Gen(g) for g in M.grammar_shapes(with_surrogates=False)]
     return scs
